@@ -26,6 +26,7 @@ EXPLANATION = (
     ' (R2, round 3) the first k tried is at least 1.'
     ' (R7, hunt 4) the partition sums are compared exactly when integral and within the rounding error of the sum otherwise (no fixed tolerance).'
     ' (R8, hunt 5) the numbers the lower-bound helpers of MinFlowDecomp(.Cycles) hand to MinGenSet are summed as Python numbers (np.uint8 169 + 170 + 171 = 254 gave the bound 4 for three disjoint routes), MinGenSet stores max_multiplicity as a Python number, and MinFlowDecompCycles leaves its helper before it passes a flow value below 1 as that count.'
+    ' (R5, seeds 5) besides complements only the total and 0 are dropped outright (guard evaluated on a grid of small integers); (R2, hunt 6) names read through self.solver are members of SolverWrapper.'
 )
 DECIDED = ["formulation of both models", "search protocol and range of MinGenSet", "documented None defaults are usable", "complement removal is strict"]
 NOT_DECIDED = ["the returned multiset / cover is minimum", "complement removal is optimum preserving (number-theoretic argument)"]
@@ -309,6 +310,8 @@ def check(prog: Program, rep):
     data_rhs_converted(prog, rep, "C15.R7", {"MinGenSet": ["_create_solver", "_encode_partition_constraints"]})
     from rules.values import float_sum_exact_compare
     float_sum_exact_compare(prog, rep, "C15.R7", "MinGenSet", "__init__")
+    from rules.values import coefficients_converted
+    coefficients_converted(prog, rep, "C15.R7", ["MinSetCover"])
     rep.rule("C15.R8", "the numbers handed to MinGenSet by the lower-bound helpers, and its own count parameter, are Python numbers before any arithmetic; "
              "the multiplicity MinFlowDecompCycles passes is a count", floor=4)
     from rules.values import python_arithmetic, count_parameter_as_python_number
